@@ -41,6 +41,10 @@ CLAIMS.update({
             "Clocks only move forward; stamping at send time is lenient by construction.", "DESIGN.md §3 C04"),
 })
 
+CLAIMS["C03"] = ("beaconnet", "property-based testing (rapid) with harness-owned delivery: per-observer contributor subsets around the threshold + junk catalogue; oracle = independent count of valid distinct member partials before each first Put",
+    "Sync is disabled and all links are queued, so which partial reaches which node is a generated value; the oracle recomputes, from the network tap, the set of distinct members whose valid partial for exactly (round, prev) reached a node before it stored that round.",
+    "Adversary below threshold; scheduling inside a node sampled.", "DESIGN.md §3 C03")
+
 PENDING_REASON = "check not built yet in this session (planned, see DESIGN.md §3); not claimed until it exists and is silent on the unchanged tree"
 
 
